@@ -162,7 +162,11 @@ func VerifC02Spellings() {
 	t1, e1 := c1.Marshal(v1)
 	zz.Assert(e1 == nil, "C02.sealing succeeds")
 	x := t1
-	switch zz.Choose("respelling", 4) {
+	switch zz.Choose("respelling", 6) {
+	case 4:
+		x = t1 + "=" // base64 padding added
+	case 5:
+		x = t1 + "=="
 	case 0:
 		x = t1 + "\n"
 	case 1:
@@ -175,7 +179,7 @@ func VerifC02Spellings() {
 	out := &verifState{}
 	err := c1.Unmarshal(x, out)
 	zz.ReachIf(x != t1, "respelled")
-	zz.Assert(zz.Or(x == t1, err != nil), "C02.a re-spelled copy of a sealed string (CR/LF added) is rejected")
+	zz.Assert(zz.Or(x == t1, err != nil), "C02.a re-spelled copy of a sealed string (CR/LF or padding added) is rejected")
 	zz.Assert(zz.Implies(x == t1, zz.And(err == nil, *out == *v1)), "C02.the sealed string itself opens")
 }
 
